@@ -740,10 +740,19 @@ impl<W, R, T> CompilationScope<'_, W, R, T> {
                         Rule::f_with_formatting => {
                             let mut inner = part.into_inner();
                             let expr = self.parse_expr(inner.next().unwrap(), interner)?;
-                            let formatting = XStaticExpr::LiteralString(
-                                inner.next().unwrap().as_str().to_string(),
-                            );
-                            XStaticExpr::new_call_sym(format_sym, vec![expr, formatting])
+                            match inner.next() {
+                                // `{e:spec}` is format(e, spec), `{e}` is to_str(e)
+                                Some(formatting) => XStaticExpr::new_call_sym(
+                                    format_sym,
+                                    vec![
+                                        expr,
+                                        XStaticExpr::LiteralString(
+                                            formatting.as_str().to_string(),
+                                        ),
+                                    ],
+                                ),
+                                None => XStaticExpr::new_call_sym(to_str_sym, vec![expr]),
+                            }
                         }
                         _ => XStaticExpr::LiteralString(apply_brace_escape(
                             &apply_escapes(part.clone().as_str()).map_err(|e| e.trace(&part))?,
